@@ -547,6 +547,15 @@ def r09_8(chk, P, E):
         for e, tab in stores:
             atoms = expand(F, A.prov_at(F.ex[e]['c'][1], e), 0, ())
             st = [a for a in atoms if a[0] == 'state']
+            outs = [a for a in atoms if a[0] == 'out' and a[1] != H.name]
+            if outs and tab in ('serialnos', 'dataoffsets'):
+                # the local was handed by address to another call after it was read from the stream state (an in/out
+                # argument of a page search): what is stored is whatever that call left in it
+                n += 1
+                chk.ob('R09.8', F.name, f'{tab}-entry-from-this-links-header-fetch@{F.s(F.ex[e]["c"][0])}', False, F.where(e),
+                       f'{F.s(e)[:70]}: the value may have been overwritten through its address by {sorted({a[1] for a in outs})} '
+                       f'before it is stored -- the entry then describes the page that call found, not this link\'s header fetch')
+                continue
             if not st:
                 # the scan itself must take a found link's serial number / data offset from its own header fetch: a value
                 # that only copies table entries or constants describes some other link
